@@ -306,6 +306,11 @@ def x_history(ctx, case):
             junk = spinner.get_junk()
             ctx.check(bool(junk) == bool(leftovers), "junk.reported-and-refused-until-cleared",
                       lambda: {"run": idx, "junk": [str(j) for j in junk], "expected leftovers": leftovers, **detail()})
+            # every selectable the run left registered is reported (each one, not just the first found)
+            sels = sum(1 for j in junk if isinstance(j, Sel))
+            ctx.check(sels == run.get("selectables", 0), "junk.reported-and-refused-until-cleared",
+                      lambda: {"run": idx, "selectables left by the function": run.get("selectables", 0),
+                               "selectables reported as junk": sels, **detail()})
             junk_pending = bool(junk)
         return nontrivial
     finally:
